@@ -232,6 +232,7 @@ def run_metric(ctx, scratch, rng, quick):
                 add('exh_undirected_%d' % n, n, n, T, lab, all_opts=(n <= 3 or not quick))
                 if n == 4 and quick:
                     add('exh_undirected_%d' % n, n, n, T, lab)
+                    add('exh_undirected_%d' % n, n, n, T, lab)
             add('exh_undirected_renamed', n, n, T, rename(rng.choice(parts)))
     graphs5 = [E for E in gen.all_undirected(5) if E]
     parts5 = list(restricted_growth(5))
@@ -260,7 +261,7 @@ def run_metric(ctx, scratch, rng, quick):
                 add('exh_bipartite_%dx%d' % (r, c), r, c, T, lab[:r], labels_col=lab[r:])
     # structured random, weighted
     nmax = 12 if quick else 30
-    for _ in range(200 if quick else 2000):
+    for _ in range(400 if quick else 3000):
         shape = rng.choice(['undirected', 'undirected', 'directed', 'bipartite'])
         if shape == 'bipartite':
             r, c, E = gen.random_biadj(rng, nmax // 2, nmax // 2)
@@ -361,7 +362,7 @@ def run_metric(ctx, scratch, rng, quick):
 def run_optimisers(ctx, scratch, rng, quick):
     nmax = 14 if quick else 40
     cases = []
-    for _ in range(260 if quick else 2200):
+    for _ in range(700 if quick else 4000):
         shape = rng.choice(['undirected', 'undirected', 'undirected', 'directed', 'bipartite'])
         if shape == 'bipartite':
             r, c, E = gen.random_biadj(rng, max(2, nmax // 2), max(2, nmax // 2))
@@ -420,9 +421,10 @@ def run_optimisers(ctx, scratch, rng, quick):
                 site = 'Louvain' if algo == 'louvain' else 'Leiden'
                 if 'hang' in r or 'crash' in r:
                     ctx.dist['optimiser_hang_or_crash'] = ctx.dist.get('optimiser_hang_or_crash', 0) + 1
-                    note = '%s did not return within 8 s on %d case(s) (termination is property C17, not C06)'
                     hangs[site] = hangs.get(site, 0) + 1
-                    ctx.extra.setdefault('optimiser_no_return', []).append(dict(site=site, options=c['opts'], shape=[c['nr'], c['nc']], triples=c['triples'])) if len(ctx.extra.get('optimiser_no_return', [])) < 4 else None
+                    if len(ctx.extra.setdefault('optimiser_no_return', [])) < 4:
+                        ctx.extra['optimiser_no_return'].append(dict(site=site, options=c['opts'], shape=[c['nr'], c['nc']],
+                                                                     triples=c['triples']))
                     continue
                 if 'ok' not in r:
                     ctx.violation(site, 'fit raised on a valid input', case=args, observed=r, oracle='fit_raises', **fields)
